@@ -1,16 +1,16 @@
 SPECIFICATION Spec
 CHECK_DEADLOCK FALSE
 CONSTANTS
-  ParamRows = {"cstrv_in", "ushortint_v", "short_v", "ushort_v", "uint_v", "ulong_v", "llong_v", "float_v", "size_v", "i8_v", "i64_v", "u16_v", "u32_v", "tdint_v", "tdstr_in", "int_v", "long_v", "double_v", "bool_v", "enum_v", "int_pin", "int_pout", "int_pinout", "int_ref", "dbl_cref", "dbl_pout", "bool_pinout", "cstr_in", "str_cref", "str_ref_inout", "str_ref_out", "pt_v", "pt_pinout", "pt_cref", "arr_in", "arr_n", "arr_out", "out_n", "vec_in", "vec_inout", "vec_out_alloc", "vec_inout_alloc"}
+  ParamRows = {"int_phidden", "cstrv_in", "ushortint_v", "short_v", "ushort_v", "uint_v", "ulong_v", "llong_v", "float_v", "size_v", "i8_v", "i64_v", "u16_v", "u32_v", "tdint_v", "tdstr_in", "int_v", "long_v", "double_v", "bool_v", "enum_v", "int_pin", "int_pout", "int_pinout", "int_ref", "dbl_cref", "dbl_pout", "bool_pinout", "cstr_in", "str_cref", "str_ref_inout", "str_ref_out", "pt_v", "pt_pinout", "pt_cref", "arr_in", "arr_n", "arr_out", "out_n", "vec_in", "vec_inout", "vec_out_alloc", "vec_inout_alloc"}
   ResultRows = {"char1", "char3", "ushortint", "short", "ushort", "uint", "ulong", "llong", "float", "size", "i8", "i64", "u16", "u32", "tdint", "void", "int", "double", "bool", "enum", "cstr", "str_cref", "pt", "iptr3", "cptr_raw", "iptr23"}
-  CRows = {"cstrv_in", "ushortint_v", "short_v", "ushort_v", "uint_v", "ulong_v", "llong_v", "float_v", "size_v", "i8_v", "i64_v", "u16_v", "u32_v", "tdint_v", "tdstr_in", "int_v", "long_v", "double_v", "bool_v", "int_pin", "int_pout", "int_pinout", "dbl_pout", "bool_pinout", "cstr_in", "pt_v", "pt_pinout", "arr_in", "arr_n", "arr_out", "out_n"}
+  CRows = {"int_phidden", "cstrv_in", "ushortint_v", "short_v", "ushort_v", "uint_v", "ulong_v", "llong_v", "float_v", "size_v", "i8_v", "i64_v", "u16_v", "u32_v", "tdint_v", "tdstr_in", "int_v", "long_v", "double_v", "bool_v", "int_pin", "int_pout", "int_pinout", "dbl_pout", "bool_pinout", "cstr_in", "pt_v", "pt_pinout", "arr_in", "arr_n", "arr_out", "out_n"}
   CResults = {"char1", "char3", "ushortint", "short", "ushort", "uint", "ulong", "llong", "float", "size", "i8", "i64", "u16", "u32", "tdint", "void", "int", "double", "bool", "cstr", "pt", "iptr3", "cptr_raw", "iptr23"}
   LuaRows = {"short_v", "ushort_v", "uint_v", "ulong_v", "llong_v", "float_v", "size_v", "i8_v", "i64_v", "u16_v", "u32_v", "tdint_v", "int_v", "long_v", "double_v", "bool_v", "enum_v", "str_cref"}
   PyRows = {"short_v", "ushort_v", "uint_v", "ulong_v", "llong_v", "float_v", "size_v", "i8_v", "i64_v", "u16_v", "u32_v", "tdint_v", "tdstr_in", "int_v", "long_v", "double_v", "bool_v", "enum_v", "int_pin", "int_pout", "int_pinout", "int_ref", "dbl_cref", "dbl_pout", "bool_pinout", "cstr_in", "str_cref", "str_ref_inout", "str_ref_out", "pt_v", "pt_pinout", "pt_cref", "arr_in", "arr_n", "arr_out", "out_n", "vec_in", "vec_out_alloc"}
   VecRows = {"vec_in", "vec_inout", "vec_out_alloc", "vec_inout_alloc"}
   KindRows = {"ushortint_v", "short_v", "ushort_v", "uint_v", "ulong_v", "llong_v", "float_v", "size_v", "i8_v", "i64_v", "u16_v", "u32_v"}
   KindResults = {"char1", "char3", "ushortint", "short", "ushort", "uint", "ulong", "llong", "float", "size", "i8", "i64", "u16", "u32"}
-  TInt = {"enum_v", "i64_v", "i8_v", "int_pin", "int_pinout", "int_pout", "int_ref", "int_v", "llong_v", "long_v", "short_v", "size_v", "tdint_v", "u16_v", "u32_v", "uint_v", "ulong_v", "ushort_v", "ushortint_v"}
+  TInt = {"int_phidden", "enum_v", "i64_v", "i8_v", "int_pin", "int_pinout", "int_pout", "int_ref", "int_v", "llong_v", "long_v", "short_v", "size_v", "tdint_v", "u16_v", "u32_v", "uint_v", "ulong_v", "ushort_v", "ushortint_v"}
   TReal = {"dbl_cref", "dbl_pout", "double_v", "float_v"}
   TLogical = {"bool_pinout", "bool_v"}
   TChar = {"cstr_in", "str_cref", "str_ref_inout", "str_ref_out", "tdstr_in"}
